@@ -73,15 +73,15 @@ def run(chk):
                             if ops[0]["ptr"] is None:
                                 v, d = UNDECIDED, "in-place form without a receiver reference"
                             else:
-                                v, d = check_table_value(env, kind, it, o.state, it.read_ptr(o.state, ops[0]["ptr"]), n, exp)
+                                v, d = check_table_value(env, kind, it, o.state, it.read_ptr(o.state, ops[0]["ptr"]), n, exp, o.pc)
                         else:
-                            v, d = check_table_value(env, kind, it, o.state, o.value, n, exp)
+                            v, d = check_table_value(env, kind, it, o.state, o.value, n, exp, o.pc)
                         # borrowed operands unchanged
                         for k, opd in enumerate(ops):
                             if v != PROVED:
                                 break
                             if opd["ptr"] is not None and not (inplace and k == 0):
-                                v, d = check_table_value(env, kind, it, o.state, it.read_ptr(o.state, opd["ptr"]), n, S.identity(n, opd["name"]))
+                                v, d = check_table_value(env, kind, it, o.state, it.read_ptr(o.state, opd["ptr"]), n, S.identity(n, opd["name"]), o.pc)
                                 d = d and "borrowed operand %s modified: %s" % (opd["name"], d)
                 except Undecided as e:
                     v, d = UNDECIDED, e.cause
